@@ -110,11 +110,57 @@ func init() {
 		var lines []string
 		for i := 0; i < *n; i++ {
 			lines = append(lines, fmt.Sprintf("S %d", i))
+			if *mode == "zerotail" {
+				lines = append(lines, GenZeroTailScript(r, h)...)
+				continue
+			}
 			lines = append(lines, GenDamageScript(r, *mode, h)...)
 		}
 		writeLines(*out, lines)
 		writeHistFile(*histp, h)
 	}
+}
+
+// GenZeroTailScript (C12, engine level): equal-sized records; the database is closed; the last records of the newest
+// data file are overwritten with zeros from a record boundary on (what a file system may leave after power loss, or a
+// memory-mapped file after the process died); the database is opened again with standard I/O and goes on writing
+// records of the same size: every later Get must return what was written for that key, across a restart too.
+func GenZeroTailScript(r *Rng, hist map[string]int) []string {
+	var out []string
+	add := func(format string, a ...interface{}) { out = append(out, "E "+fmt.Sprintf(format, a...)) }
+	o := EngineGenOpts{FixedIO: 0}
+	c := genCfg(r, o, hist)
+	c.fsize = r.Pick(4096, 40960, 1<<20)
+	vlen := r.Pick(10, 20, 33, 100)
+	n := 4 + r.Intn(8)
+	add("dir db")
+	add("open %s", c)
+	for i := 0; i < n; i++ {
+		add("put %02x%02x @%d:%d", 0x6f, i, vlen, r.Intn(99999))
+	}
+	add("dump")
+	add("close")
+	rec := encLen(2, vlen, 0) + 7 // one chunk per record while no block boundary is crossed
+	k := 1 + r.Intn(n-1)
+	add("zerotail %d", k*rec)
+	c2 := genCfg(r, o, hist)
+	c2.fsize = c.fsize
+	add("open %s", c2)
+	add("dump")
+	for i := 0; i < n+2; i++ {
+		add("put %02x%02x @%d:%d", 0x6e, i, vlen, r.Intn(99999))
+		if r.Chance(1, 3) {
+			add("get %02x%02x", 0x6e, r.Intn(i+1))
+		}
+	}
+	add("dump")
+	add("fold")
+	add("close")
+	add("open %s", genCfg(r, o, hist))
+	add("dump")
+	add("close")
+	hist["zeroed_tail_then_more_writes"]++
+	return out
 }
 
 // GenFlipScript (C12, engine level): a small database (a few records, perhaps a batch, perhaps an
